@@ -1259,6 +1259,375 @@ Proof.
     + rewrite Li5, Li4, Li3. change (nsect s3) with (nsect s + 1). lia.
 Qed.
 
+(* ---- A3 (c): frames for the FAT primitives, allocate_sector, the two
+        header-writing branches of allocate_mini_sector ---- *)
+
+(* what the primitives below the header layer leave alone *)
+Definition hframe (s s' : cstate) : Prop :=
+  hd [] (img s') = hd [] (img s) /\ lenN (img s') = nsect s' + 1 /\ ver s' = ver s /\
+  difat_ids s' = difat_ids s /\ dir_start s' = dir_start s /\
+  minifat_start s' = minifat_start s /\ difat s' = difat s.
+
+Lemma hd_updN_pos : forall A (l : list A) i x d, i <> 0 -> hd d (updN l i x) = hd d l.
+Proof.
+  intros A l i x d H. destruct l as [|y t]; [reflexivity|]. cbn [updN].
+  destruct (N.eqb_spec i 0); [contradiction|reflexivity].
+Qed.
+
+Lemma set_fat_hframe : forall s index v s' u,
+  lenN (img s) = nsect s + 1 -> set_fat index v s = (s', Ok u) ->
+  hframe s s' /\ nsect s' = nsect s /\ fat s' = ReuseProofs.fat_set (fat s) index v /\
+  index <= lenN (fat s).
+Proof.
+  intros s index v s' u Hi H.
+  destruct (DirCoherence.set_fat_ok_inv s index v s' u Hi H) as (fsid & Hd & Hf & Hidx & ->).
+  unfold hframe. cbn [img nsect ver difat_ids dir_start minifat_start difat fat w_fat w_img].
+  repeat split; try reflexivity; try assumption.
+  - apply hd_updN_pos. lia.
+  - rewrite lenN_updN. exact Hi.
+Qed.
+
+Lemma hd_img_pad_last : forall sl (im : list (list byte)),
+  sl <= lenN (hd [] im) -> hd [] (img_pad_last sl im) = hd [] im.
+Proof.
+  intros sl im H. unfold img_pad_last. destruct (lastN im) as [sec|] eqn:El; [|reflexivity].
+  destruct (lenN sec <? sl) eqn:E; [|reflexivity].
+  destruct im as [|h [|h2 t]].
+  - discriminate El.
+  - unfold lastN in El. cbn [rev app] in El. injection El as <-. cbn [hd] in H. lia.
+  - unfold pop_last. cbn [removelast app hd]. reflexivity.
+Qed.
+
+Lemma init_sector_hframe : forall s sid i s' u,
+  lenN (img s) = nsect s + 1 -> slen s <= lenN (hd [] (img s)) ->
+  init_sector sid i s = (s', Ok u) ->
+  hframe s s' /\ fat s' = fat s.
+Proof.
+  intros s sid i s' u Hi Hh H.
+  destruct (DirCoherence.init_sector_ok_inv s sid i s' u Hi H) as [[Hs ->]|[Hs ->]];
+    unfold hframe; cbn [img nsect ver difat_ids dir_start minifat_start difat fat w_nsect w_img];
+    repeat split; try reflexivity.
+  - apply hd_updN_pos. lia.
+  - rewrite lenN_updN. exact Hi.
+  - pose proof (DirCoherence.lenN_img_pad_last (slen s) (img s)) as L.
+    destruct (img_pad_last (slen s) (img s)) as [|p0 pt] eqn:Ep;
+      [cbn [lenN] in L; lia|].
+    cbn [app hd]. change p0 with (hd [] (p0 :: pt)). rewrite <- Ep.
+    apply hd_img_pad_last. exact Hh.
+  - rewrite CodecProofs.lenN_app, DirCoherence.lenN_img_pad_last, Hi. cbn [lenN]. lia.
+Qed.
+
+(* a chain never visits a FREE cell, so rewriting one does not disturb it *)
+Lemma path_next : forall fat c l x, WalkProofs.path fat c l -> In x l ->
+  exists nx, next_of fat x = Ok nx.
+Proof.
+  intros fat c l x Hp. induction Hp as [|cur nx l Hc Hn Hp IH]; intro Hin; [destruct Hin|].
+  destruct Hin as [<-|Hin]; [exists nx; exact Hn|apply IH; exact Hin].
+Qed.
+
+Lemma chain_ids_of_updN_free : forall fat st ids x v,
+  chain_ids_of fat st = Ok ids -> nthN fat x = Some FREE_SECTOR ->
+  chain_ids_of (updN fat x v) st = Ok ids.
+Proof.
+  intros fat st ids x v H Hx. apply WalkProofs.chain_ids_path in H.
+  apply WalkProofs.chain_ids_of_path; [|eapply ReuseProofs.path_nodup; exact H].
+  apply ReuseProofs.path_updN; [exact H|]. intro Hin.
+  destruct (path_next _ _ _ _ H Hin) as [nx Hn]. apply WalkProofs.next_of_Ok in Hn.
+  destruct Hn as [Hn Hr]. rewrite Hx in Hn. injection Hn as <-. markers. lia.
+Qed.
+
+(* the postcondition carried through the allocator *)
+Definition hpost (s s' : cstate) : Prop :=
+  HeaderCoherent s' /\ dir_start s' = dir_start s /\ minifat_start s' = minifat_start s /\
+  ver s' = ver s /\ difat_ids s' = difat_ids s /\ lenN (img s') = nsect s' + 1 /\
+  lenN (hd [] (img s')) = lenN (hd [] (img s)) /\
+  (forall st ids, chain_ids_of (fat s) st = Ok ids -> chain_ids_of (fat s') st = Ok ids).
+
+Lemma chain_count_pres : forall fat fat' st,
+  (exists ids, chain_ids_of fat st = Ok ids) ->
+  (forall st ids, chain_ids_of fat st = Ok ids -> chain_ids_of fat' st = Ok ids) ->
+  chain_count fat' st = chain_count fat st.
+Proof.
+  intros fat fat' st [ids H] Hp. unfold chain_count. rewrite (Hp _ _ H), H. reflexivity.
+Qed.
+
+Lemma hframe_hpost : forall s s',
+  HeaderCoherent s ->
+  (exists ids, chain_ids_of (fat s) (dir_start s) = Ok ids) ->
+  (exists ids, chain_ids_of (fat s) (minifat_start s) = Ok ids) ->
+  hframe s s' ->
+  (forall st ids, chain_ids_of (fat s) st = Ok ids -> chain_ids_of (fat s') st = Ok ids) ->
+  hpost s s'.
+Proof.
+  intros s s' Hc Hd Hm (F1 & F2 & F3 & F4 & F5 & F6 & F7) Hp.
+  unfold hpost. repeat split; try assumption; [|rewrite F1; reflexivity].
+  unfold HeaderCoherent in *. rewrite F1, Hc. f_equal.
+  unfold header_of. rewrite F3, F4, F5, F6, F7.
+  rewrite (chain_count_pres _ _ _ Hd Hp), (chain_count_pres _ _ _ Hm Hp). reflexivity.
+Qed.
+
+Lemma hpost_trans : forall a b c, hpost a b -> hpost b c -> hpost a c.
+Proof.
+  intros a b c (A1 & A2 & A3 & A4 & A5 & A6 & A7 & A8) (B1 & B2 & B3 & B4 & B5 & B6 & B7 & B8).
+  unfold hpost. repeat split; try congruence. intros st ids H. apply B8, A8, H.
+Qed.
+
+Lemma hpost_chains : forall s s', hpost s s' ->
+  (exists ids, chain_ids_of (fat s) (dir_start s) = Ok ids) ->
+  (exists ids, chain_ids_of (fat s) (minifat_start s) = Ok ids) ->
+  (exists ids, chain_ids_of (fat s') (dir_start s') = Ok ids) /\
+  (exists ids, chain_ids_of (fat s') (minifat_start s') = Ok ids).
+Proof.
+  intros s s' (_ & A2 & A3 & _ & _ & _ & _ & A8) [d Hd] [m Hm]. rewrite A2, A3.
+  split; [exists d|exists m]; apply A8; assumption.
+Qed.
+
+(* set_fat index END_OF_CHAIN ;; init_sector index i on a cell that is free or new *)
+Lemma claim_cell_hpost : forall s index i s1 s2 u1 u2,
+  HeaderCoherent s -> lenN (img s) = nsect s + 1 -> slen s <= lenN (hd [] (img s)) ->
+  (exists ids, chain_ids_of (fat s) (dir_start s) = Ok ids) ->
+  (exists ids, chain_ids_of (fat s) (minifat_start s) = Ok ids) ->
+  (index = lenN (fat s) \/ nthN (fat s) index = Some FREE_SECTOR) ->
+  set_fat index END_OF_CHAIN s = (s1, Ok u1) -> init_sector index i s1 = (s2, Ok u2) ->
+  hpost s s2 /\ nthN (fat s2) index = Some END_OF_CHAIN /\ lenN (fat s2) <= lenN (fat s) + 1.
+Proof.
+  intros s index i s1 s2 u1 u2 Hc Hi Hh Hd Hm Hcell H1 H2.
+  destruct (set_fat_hframe s index END_OF_CHAIN s1 u1 Hi H1)
+    as ((F1 & F2 & F3 & F4 & F5 & F6 & F7) & Fn & Ffat & Fidx).
+  assert (Hh1 : slen s1 <= lenN (hd [] (img s1)))
+    by (unfold slen; rewrite F3, F1; exact Hh).
+  destruct (init_sector_hframe s1 index i s2 u2 F2 Hh1 H2)
+    as ((G1 & G2 & G3 & G4 & G5 & G6 & G7) & Gfat).
+  assert (Efat : fat s2 = ReuseProofs.fat_set (fat s) index END_OF_CHAIN) by congruence.
+  split.
+  - apply hframe_hpost; try assumption.
+    + unfold hframe. repeat split; congruence.
+    + intros st ids Hst. rewrite Efat. unfold ReuseProofs.fat_set.
+      destruct (N.eqb_spec index (lenN (fat s))) as [E|E].
+      * apply chain_ids_of_app. exact Hst.
+      * destruct Hcell as [Hcell|Hcell]; [contradiction|].
+        apply chain_ids_of_updN_free; assumption.
+  - rewrite Efat. unfold ReuseProofs.fat_set.
+    destruct (N.eqb_spec index (lenN (fat s))) as [->|E].
+    + split; [apply CodecProofs.nthN_app_exact|]. rewrite CodecProofs.lenN_app. cbn [lenN]. lia.
+    + split; [apply nthN_updN_same; lia|]. rewrite lenN_updN. lia.
+Qed.
+
+Theorem allocate_sector_header : forall i s s' sid,
+  HeaderCoherent s -> CoherenceProofs.FatInv s ->
+  lenN (difat s) < NUM_DIFAT_HDR ->
+  slen s <= lenN (hd [] (img s)) ->
+  (forall x, In x (free s) -> nthN (fat s) x = Some FREE_SECTOR) ->
+  (exists ids, chain_ids_of (fat s) (dir_start s) = Ok ids) ->
+  (exists ids, chain_ids_of (fat s) (minifat_start s) = Ok ids) ->
+  allocate_sector i s = (s', Ok sid) ->
+  hpost s s' /\ nthN (fat s') sid = Some END_OF_CHAIN /\ lenN (fat s') <= lenN (fat s) + 2.
+Proof.
+  intros i s s' sid Hc Hinv Hreg Hh Hfree Hd Hm H.
+  pose proof Hinv as [[Himg Hfull _ _ _] Hlen Hpos Htight].
+  assert (Hh512 : HEADER_LEN <= lenN (hd [] (img s))).
+  { unfold HEADER_LEN. destruct (ReuseProofs.slen_cases s) as [E|E]; rewrite E in Hh;
+      unfold byte in *; lia. }
+  unfold allocate_sector in H. rewrite ReuseProofs.bind_get in H.
+  destruct (lastN (free s)) as [sid0|] eqn:El.
+  - (* reuse *)
+    rewrite ReuseProofs.bind_modify in H.
+    set (s0 := w_free s (pop_last (free s))) in *.
+    apply ReuseProofs.bind_ok in H. destruct H as ([] & s1 & H1 & H).
+    apply ReuseProofs.bind_ok in H. destruct H as ([] & s2 & H2 & H).
+    unfold ret in H. injection H as <- <-.
+    assert (Hc0 : HeaderCoherent s0) by exact Hc.
+    destruct (claim_cell_hpost s0 sid0 i s1 s2 tt tt Hc0 Himg Hh Hd Hm
+                (or_intror (Hfree _ (CoherenceProofs.lastN_In _ _ _ El))) H1 H2) as (P & Q & R).
+    split; [exact P|split; [exact Q|]]. change (fat s0) with (fat s) in R. lia.
+  - (* growth *)
+    apply ReuseProofs.bind_ok in H. destruct H as ([] & s1 & H1 & H).
+    rewrite ReuseProofs.bind_get in H. cbv zeta in H.
+    apply ReuseProofs.bind_ok in H. destruct H as ([] & s2 & H2 & H).
+    apply ReuseProofs.bind_ok in H. destruct H as ([] & s3 & H3 & H).
+    unfold ret in H. injection H as <- <-.
+    assert (P1 : (hpost s s1 /\ slen s1 <= lenN (hd [] (img s1))) /\ lenN (fat s1) <= lenN (fat s) + 1).
+    { destruct (lenN (fat s) mod fat_per_sector s =? 0) eqn:Em.
+      - apply N.eqb_eq in Em.
+        destruct (append_fat_sector_header s s1 Hc Hinv Em Hreg Hh512 Hd Hm H1)
+          as (A0 & A1 & A2 & A3 & A4 & A5 & A6 & A7 & A8 & A9 & A10).
+        split; [split|].
+        + unfold hpost. repeat split; try assumption.
+          intros st ids Hst. rewrite A1. apply chain_ids_of_app. exact Hst.
+        + unfold slen. rewrite A7. unfold byte in *. rewrite A8. exact Hh.
+        + rewrite A1, CodecProofs.lenN_app. cbn [lenN]. lia.
+      - unfold ret in H1. injection H1 as <-. split; [split; [|exact Hh]|lia].
+        unfold hpost. repeat split; try assumption; try reflexivity. intros st ids Hst. exact Hst. }
+    destruct P1 as [[P1 Hh1] Hl1].
+    pose proof P1 as (B1 & B2 & B3 & B4 & B5 & B6 & B7 & B8).
+    destruct (hpost_chains _ _ P1 Hd Hm) as [Hd1 Hm1].
+    destruct (claim_cell_hpost s1 (lenN (fat s1)) i s2 s3 tt tt B1 B6 Hh1 Hd1 Hm1
+                (or_introl eq_refl) H2 H3) as (P & Q & R).
+    split; [exact (hpost_trans _ _ _ P1 P)|split; [exact Q|lia]].
+Qed.
+
+(* first MiniFAT sector: begin_chain, then the 8-byte header write *)
+Definition mini_first_branch : M unit :=
+  do sid <- begin_chain IFat;
+  modify (fun s => w_minifat_start s sid) ;;
+  header_write HDR_OFF_FIRST_MINIFAT (le_bytes 4 sid ++ le_bytes 4 1).
+
+Lemma chain_ids_of_single : forall fat sid,
+  nthN fat sid = Some END_OF_CHAIN -> sid <> END_OF_CHAIN -> chain_ids_of fat sid = Ok [sid].
+Proof.
+  intros fat sid Hn Hne. apply WalkProofs.chain_ids_of_path.
+  - econstructor; [exact Hne| |constructor].
+    apply WalkProofs.next_of_Ok. split; [exact Hn|left; reflexivity].
+  - constructor; [intros []|constructor].
+Qed.
+
+Theorem mini_first_branch_header : forall s s',
+  HeaderCoherent s -> CoherenceProofs.FatInv s ->
+  lenN (difat s) < NUM_DIFAT_HDR ->
+  slen s <= lenN (hd [] (img s)) ->
+  nsect s + 2 <= MAX_REGULAR_SECTOR ->
+  (forall x, In x (free s) -> nthN (fat s) x = Some FREE_SECTOR) ->
+  (exists ids, chain_ids_of (fat s) (dir_start s) = Ok ids) ->
+  minifat_start s = END_OF_CHAIN ->
+  mini_first_branch s = (s', Ok tt) ->
+  HeaderCoherent s' /\ minifat_start s' <> END_OF_CHAIN /\
+  chain_count (fat s') (minifat_start s') = 1.
+Proof.
+  intros s s' Hc Hinv Hreg Hh Hbig Hfree Hd Hms H.
+  assert (Hm : exists ids, chain_ids_of (fat s) (minifat_start s) = Ok ids).
+  { exists []. rewrite Hms. unfold chain_ids_of. cbn [chain_ids_go]. rewrite N.eqb_refl. reflexivity. }
+  unfold mini_first_branch in H.
+  apply ReuseProofs.bind_ok in H. destruct H as (sid & s1 & H1 & H).
+  unfold begin_chain in H1.
+  destruct (allocate_sector_header IFat s s1 sid Hc Hinv Hreg Hh Hfree Hd Hm H1)
+    as ((B1 & B2 & B3 & B4 & B5 & B6 & B7 & B8) & Hcell & Hfl).
+  rewrite ReuseProofs.bind_modify in H.
+  set (s2 := w_minifat_start s1 sid) in *.
+  assert (Hsid : sid < lenN (fat s1)) by (eapply nthN_Some_lt; exact Hcell).
+  assert (Hne1 : img s1 <> []) by (intro E; rewrite E in B6; cbn [lenN] in B6; lia).
+  assert (Hh512 : HEADER_LEN <= lenN (hd [] (img s1))).
+  { unfold HEADER_LEN. unfold byte in *. rewrite B7.
+    destruct (ReuseProofs.slen_cases s) as [E|E]; rewrite E in Hh; lia. }
+  destruct (header_write_bytes s2 HDR_OFF_FIRST_MINIFAT (le_bytes 4 sid ++ le_bytes 4 1) s'
+              (header_of s1) (h_set_num_minifat (h_set_first_minifat (header_of s1) sid) 1)
+              B1 Hne1 Hh512
+              ltac:(rewrite CodecProofs.lenN_app, !CodecProofs.lenN_le_bytes4;
+                    unfold HDR_OFF_FIRST_MINIFAT, HEADER_LEN; lia)
+              H (header_splice_minifat_pair _ _ _)) as (Hb & Hm2 & _ & _).
+  assert (Efs : fat s' = fat s1) by (rewrite Hm2; reflexivity).
+  assert (Ems : minifat_start s' = sid) by (rewrite Hm2; reflexivity).
+  (* sid is a regular sector id *)
+  assert (Hsidreg : sid <> END_OF_CHAIN).
+  { destruct Hinv as [_ Hlen _ _]. markers. lia. }
+  assert (Hcount : chain_count (fat s1) sid = 1).
+  { unfold chain_count. rewrite (chain_ids_of_single _ _ Hcell Hsidreg). reflexivity. }
+  split; [|split; [rewrite Ems; exact Hsidreg|rewrite Efs, Ems; exact Hcount]].
+  unfold HeaderCoherent. unfold HdrBytes in Hb. rewrite Hb, Hm2, header_of_w_img.
+  unfold h_set_num_minifat, h_set_first_minifat, header_of. hdr_fields.
+  cbn [s2 ver fat dir_start difat difat_ids minifat_start w_minifat_start].
+  rewrite Hcount. reflexivity.
+Qed.
+
+(* MiniFAT chain extension: extend_chain, re-walk, write the new count *)
+Definition mini_extend_branch (start : N) : M unit :=
+  do _ <- extend_chain start IFat;
+  do c2 <- chain_new start IFat;
+  header_write HDR_OFF_NUM_MINIFAT (le_bytes 4 (lenN (c_ids c2))).
+
+Theorem mini_extend_branch_header : forall s s' dids mids,
+  HeaderCoherent s -> CoherenceProofs.FatInv s ->
+  lenN (difat s) < NUM_DIFAT_HDR ->
+  slen s <= lenN (hd [] (img s)) ->
+  (forall x, In x (free s) -> nthN (fat s) x = Some FREE_SECTOR) ->
+  chain_ids_of (fat s) (dir_start s) = Ok dids ->
+  chain_ids_of (fat s) (minifat_start s) = Ok mids ->
+  (forall x, In x mids -> ~ In x dids) ->
+  mini_extend_branch (minifat_start s) s = (s', Ok tt) ->
+  HeaderCoherent s'.
+Proof.
+  intros s s' dids mids Hc Hinv Hreg Hh Hfree Hd Hm Hdisj H.
+  unfold mini_extend_branch in H.
+  apply ReuseProofs.bind_ok in H. destruct H as (new0 & sF & He & H).
+  (* extend_chain *)
+  unfold extend_chain in He.
+  destruct (N.eqb_spec (minifat_start s) END_OF_CHAIN) as [E|Hne]; [discriminate He|].
+  rewrite ReuseProofs.bind_get in He.
+  apply ReuseProofs.bind_ok in He. destruct He as (last & s0 & Hl & He).
+  unfold lift in Hl.
+  assert (Es0 : s0 = s) by (apply (f_equal fst) in Hl; cbn [fst] in Hl; congruence).
+  apply (f_equal snd) in Hl. cbn [snd] in Hl. subst s0.
+  apply ReuseProofs.bind_ok in He. destruct He as (nw & s1 & Ha & He).
+  apply ReuseProofs.bind_ok in He. destruct He as ([] & s2 & Hs & He).
+  unfold ret in He. injection He as <- <-.
+  destruct (allocate_sector_header IFat s s1 nw Hc Hinv Hreg Hh Hfree
+              (ex_intro _ dids Hd) (ex_intro _ mids Hm) Ha)
+    as ((B1 & B2 & B3 & B4 & B5 & B6 & B7 & B8) & Hcell & Hfl).
+  destruct (set_fat_hframe s1 last nw s2 tt B6 Hs)
+    as ((F1 & F2 & F3 & F4 & F5 & F6 & F7) & Fn & Ffat & Fidx).
+  pose proof (WalkProofs.chain_ids_path _ _ _ Hm) as Hpm.
+  pose proof (DirCoherence.find_last_go_path _ _ _ _ _ _ Hpm Hne Hl) as Hlast.
+  assert (Hlin : In last mids) by (eapply CoherenceProofs.lastN_In; exact Hlast).
+  assert (Hllt : last < lenN (fat s)).
+  { pose proof (WalkProofs.path_lt _ _ _ Hpm) as HF. rewrite Forall_forall in HF. apply HF, Hlin. }
+  assert (Hlen1 : last < lenN (fat s1)).
+  { (* chains of s survive in s1, in particular cell [last] exists there *)
+    pose proof (B8 _ _ Hm) as Hm1. apply WalkProofs.chain_ids_path, WalkProofs.path_lt in Hm1.
+    rewrite Forall_forall in Hm1. exact (Hm1 last Hlin). }
+  assert (Efat2 : fat s2 = updN (fat s1) last nw).
+  { rewrite Ffat. unfold ReuseProofs.fat_set.
+    destruct (N.eqb_spec last (lenN (fat s1))); [lia|reflexivity]. }
+  (* the directory chain is untouched *)
+  assert (Hd2 : chain_ids_of (fat s2) (dir_start s) = Ok dids).
+  { rewrite Efat2. pose proof (B8 _ _ Hd) as Hd1.
+    apply WalkProofs.chain_ids_path in Hd1.
+    apply WalkProofs.chain_ids_of_path; [|eapply ReuseProofs.path_nodup; exact Hd1].
+    apply ReuseProofs.path_updN; [exact Hd1|]. intro Hin. exact (Hdisj last Hlin Hin). }
+  (* chain_new and the header write *)
+  apply ReuseProofs.bind_ok in H. destruct H as (c2 & s3 & Hc2 & H).
+  unfold chain_new in Hc2. rewrite ReuseProofs.bind_get in Hc2.
+  destruct (chain_ids_of (fat s2) (minifat_start s)) as [ids2| | |] eqn:Eids2;
+    try discriminate Hc2.
+  unfold lift, bind, ret in Hc2. injection Hc2 as <- <-. cbn [c_ids] in H.
+  assert (Hb2 : HdrBytes s2 (header_of s1)) by (unfold HdrBytes; rewrite F1; exact B1).
+  assert (Hne2 : img s2 <> []) by (intro E; rewrite E in F2; cbn [lenN] in F2; lia).
+  assert (Hh512 : HEADER_LEN <= lenN (hd [] (img s2))).
+  { unfold HEADER_LEN. rewrite F1. unfold byte in *. rewrite B7.
+    destruct (ReuseProofs.slen_cases s) as [E|E]; rewrite E in Hh; lia. }
+  destruct (header_write_bytes s2 HDR_OFF_NUM_MINIFAT (le_bytes 4 (lenN ids2)) s'
+              (header_of s1) (h_set_num_minifat (header_of s1) (lenN ids2))
+              Hb2 Hne2 Hh512
+              ltac:(rewrite CodecProofs.lenN_le_bytes4; unfold HDR_OFF_NUM_MINIFAT, HEADER_LEN; lia)
+              H (header_splice_num_minifat _ _)) as (Hb & Hm2 & _ & _).
+  unfold HeaderCoherent. unfold HdrBytes in Hb. rewrite Hb, Hm2, header_of_w_img.
+  unfold h_set_num_minifat, header_of. hdr_fields.
+  rewrite F3, F4, F5, F6, F7, B2, B3.
+  assert (Ecd : chain_count (fat s2) (dir_start s) = chain_count (fat s1) (dir_start s)).
+  { unfold chain_count. rewrite Hd2, (B8 _ _ Hd). reflexivity. }
+  assert (Ecm : chain_count (fat s2) (minifat_start s) = lenN ids2).
+  { unfold chain_count. rewrite Eids2. reflexivity. }
+  rewrite Ecd, Ecm. reflexivity.
+Qed.
+
+(* the two branch fragments above are literally the code of
+   Mini.allocate_mini_sector (growth case) *)
+Lemma allocate_mini_sector_unfold : forall value s,
+  allocate_mini_sector value s
+  = bind (pop_free_mini (S (length (mfree s)))) (fun got =>
+      match got with
+      | Some idx => set_minifat idx value ;; ret idx
+      | None =>
+        do s <- get;
+        (if minifat_start s =? END_OF_CHAIN then
+           (if negb (lenN (minifat s) =? 0) then panic 507 else ret tt) ;; mini_first_branch
+         else
+           do c <- chain_new (minifat_start s) IFat;
+           if lenN (c_ids c) * (slen s / 4) <=? lenN (minifat s)
+           then mini_extend_branch (minifat_start s) else ret tt) ;;
+        do s <- get;
+        set_minifat (lenN (minifat s)) value ;; append_mini_sector ;; ret (lenN (minifat s))
+      end) s.
+Proof. reflexivity. Qed.
+
 (* ================================================================== *)
 (* B2: non-vacuity                                                     *)
 (* ================================================================== *)
@@ -1309,4 +1678,91 @@ Module Examples.
   Example ex4_reopens_by_computation : forall strict,
     open_model strict (concat_img (img ex4)) = Ok (reopened ex4).
   Proof. intros [|]; vm_compute; reflexivity. Qed.
+
+  (* more reachable states: everything removed again; ten 1000-byte mini streams
+     (160 MiniFAT entries: the MiniFAT chain was extended); a 70000-byte stream
+     (a second FAT sector was appended); 40 storages in a V4 file (a second
+     directory sector, NUM_DIR rewritten) *)
+  Definition p_n (k : N) : list N := [47; 110; 48 + k / 10; 48 + k mod 10].
+  Definition mk_small (k : N) : list op :=
+    [OCreateStream 0 (p_n k); OHWrite 0 (repeatN 5 1000); OHFlush 0; OHDrop 0].
+  Definition st_removed : cstate :=
+    cs (fst (run_ops (init_fstate V3 1024 4)
+                     (ex_ops ++ [ORemoveStream p_b; ORemoveStream p_da; ORemoveStorage p_d]))).
+  Definition st_minis : cstate :=
+    cs (fst (run_ops (init_fstate V3 1024 4) (flat_map mk_small [0;1;2;3;4;5;6;7;8;9]))).
+  Definition st_grown : cstate :=
+    cs (fst (run_ops (init_fstate V3 1024 4) [OCreateStream 0 p_b; OHSetLen 0 70000; OHFlush 0; OHDrop 0])).
+  Definition st_dirs4 : cstate :=
+    cs (fst (run_ops (init_fstate V4 1024 4)
+                     (map (fun k => OCreateStorage (p_n (N.of_nat k))) (seq 0 40)))).
+
+  Example more_shapes :
+    lenN (minifat st_removed) = 0 /\ minifat_start st_removed = 2 /\
+    lenN (minifat st_minis) = 160 /\ chain_count (fat st_minis) (minifat_start st_minis) = 2 /\
+    difat st_grown = [0; 128] /\ nsect st_grown = 140 /\
+    lenN (dirs st_dirs4) = 41 /\ chain_count (fat st_dirs4) (dir_start st_dirs4) = 2.
+  Proof. vm_compute. repeat split; reflexivity. Qed.
+
+  Theorem more_coherent :
+    Coherent st_removed /\ Coherent st_minis /\ Coherent st_grown /\ Coherent st_dirs4.
+  Proof.
+    split; [|split; [|split]]; apply coherent_b_sound; vm_compute; reflexivity.
+  Qed.
 End Examples.
+
+(* ------------------------------------------------------------------ *)
+Check chunks_concat.
+Check header_wf_of.
+Check reopen_header.
+Check strip_hdr_difat.
+Check reopen_fat_cells.
+Check alloc_validate_id.
+Check dir_validate_app.
+Check u32s_minifat.
+Check mini_validate_id.
+Check open_compose.
+Check reopen_strict.
+Check reopen_both_modes.
+Check reopen_same_tables.
+Check coherent_b_sound.
+Check create_state_header_coherent.
+Check header_splice_num_dir.
+Check header_splice_num_fat.
+Check header_splice_first_minifat.
+Check header_splice_num_minifat.
+Check header_splice_minifat_pair.
+Check header_splice_first_difat.
+Check header_splice_difat_pair.
+Check header_splice_difat_entry.
+Check header_write_bytes.
+Check sector_write_frame.
+Check sector_write_header_coherent.
+Check update_num_dir_sectors_header.
+Check append_fat_sector_header.
+Check allocate_sector_header.
+Check mini_first_branch_header.
+Check mini_extend_branch_header.
+Check allocate_mini_sector_unfold.
+Check Examples.create_state_coherent.
+Check Examples.create_state_reopens.
+Check Examples.ex3_coherent.
+Check Examples.more_coherent.
+Print Assumptions reopen_same_tables.
+Print Assumptions reopen_both_modes.
+Print Assumptions coherent_b_sound.
+Print Assumptions create_state_header_coherent.
+Print Assumptions header_splice_difat_entry.
+Print Assumptions header_write_bytes.
+Print Assumptions sector_write_header_coherent.
+Print Assumptions update_num_dir_sectors_header.
+Print Assumptions append_fat_sector_header.
+Print Assumptions allocate_sector_header.
+Print Assumptions mini_first_branch_header.
+Print Assumptions mini_extend_branch_header.
+Print Assumptions Examples.create_state_coherent.
+Print Assumptions Examples.create_state_reopens.
+Print Assumptions Examples.ex3_coherent.
+Print Assumptions Examples.ex4_coherent.
+Print Assumptions Examples.more_coherent.
+Print Assumptions Examples.ex3_reopens_by_computation.
